@@ -2,7 +2,7 @@
    evaluated on one observed step of the implementation.  The clause names are the
    ones printed after `propfail`. *)
 open Backend
-let eval (prev : state) (op : op) (r : result) (next : state) : (string * bool) list =
+let eval ?(kill_timeout = false) (prev : state) (op : op) (r : result) (next : state) : (string * bool) list =
   let retained_head = match op with
     | ODequeue (c, temp) ->
       (match session_of prev c with
@@ -15,4 +15,7 @@ let eval (prev : state) (op : op) (r : result) (next : state) : (string * bool) 
     ("resub", BackendSpec.resub_ok prev op r next);
     ("unsub", BackendSpec.unsub_ok prev op r next);
     ("retained", BackendSpec.retained_ok prev op r next && BackendSpec.retained_wf next);
-    ("replay", BackendSpec.replay_ok prev op r next) ]
+    ("replay", BackendSpec.replay_ok prev op r next);
+    ("handover", BackendC13.handover_ok prev op r next);
+    (* C13 uniqueness invariant: stated for histories without kill timeout *)
+    ("unique", kill_timeout || BackendC13.unique_ok next) ]
